@@ -104,6 +104,12 @@ class Contract:
     def merge_paths_at_loops(self):
         """join the paths that reach a loop (one ite-merged state): the loop body is then verified once"""
         self.merge_flag = True; return self
+    def fold_constants(self):
+        """deterministic pure helper: a call whose arguments are all literals is evaluated by running the real function"""
+        self.fold_flag = True; return self
+    def specialize(self, **consts):
+        """verify for these constant values of parameters (call sites must pass exactly these literals)"""
+        self.special = dict(consts); return self
     def merge_paths_at_exit(self):
         self.merge_exit_flag = True; return self
     def unfold(self, depth):
